@@ -756,7 +756,17 @@ class IntermediateColumnarFormatField:
 
     def read_chunk(self, path):
         with open(path, "rb") as f:
-            pkl = self.compressor.decode(f.read())
+            buff = f.read()
+        if isinstance(self.compressor, numcodecs.Blosc):
+            # Blosc trusts the compressed size declared in its 16 byte header
+            # (bytes 12-15) and reads that much from the buffer; a truncated
+            # file must not be decoded past its end.
+            if len(buff) < 16 or int.from_bytes(buff[12:16], "little") != len(buff):
+                raise RuntimeError(
+                    f"Chunk file {path} is truncated or corrupt: "
+                    "its size does not match its blosc header"
+                )
+        pkl = self.compressor.decode(buff)
         return pickle.loads(pkl)
 
     def chunk_num_records(self, partition_id):
